@@ -44,7 +44,8 @@ SCALARS = ["", " ", "x", "1", "-3", "1.5", "true", "False", "2020-01-02", "2020-
            "2020-01-02 03:04:05", "[1,2]", "[a,b", "(1;2)", "(1;2;3)", "[(1;2),(3;4)]", "(1, 2)", "(2, 1)", "(a, b)",
            "(None, 3)", "(-1, 2)", "int", "string", "2-tuple", "bogus", "0-tuple", "6ba7b810-9dad-41d1-80b4-00c04fd430c8",
            "6BA7B810-9DAD-41D1-80B4-00C04FD430C8", "zz", "/a/b", "../x", "file:///nonexistent.xml", "ä", "\U0001F600",
-           "a,b", 'q"r', "n.s.", "l1\nl2", "None", "null", "~"]
+           "a,b", 'q"r', "n.s.", "l1\nl2", "None", "null", "~", "(²,3)", "(1,²)", "(١,٣)", "(1, ⑦)", "(0,0)", "(3,3)",
+           "(None,None)", "( 1 , 2 )", "(1,2", "1,2)", "(,)", "(1,)", "((1,2))", "(1e3,2)", "(+1,2)", "(1.0,2)", "٣", "²"]
 
 
 # ---------------------------------------------------------------------------------------------
